@@ -28,6 +28,9 @@ TEMPLATES3 = [
     # fused aromatics whose fusion bond is written as an explicit closure (-2 on the opening label, the closing label, or both)
     ["c1cc", ["2", "-2"], ["nc", "cc", "c[nH]", "co", "cs"], ["oc", "[nH]c", "sc", "cc", "c"], ["2", "-2"], "cc1"],
     ["c1ccc", ["2", "-2"], "c(c1)", ["-c1ccccc1", "c1ccccc1", "Cc1ccccc1"], ["-2", "2"]],
+    # an atom closing a ring with a double / triple bond and opening another ring, valence exactly used up
+    ["C1CCC(", ["C", "S", "N"], ["=1", "1", "#1", "=12", "12", "#12"], ["2", "", "%10"], ")CCC", ["2", "", "%10"]],
+    ["C1CC", ["=C", "C"], ["12", "21", "=12"], "CC", ["=C2", "C2", "C=2"], ["C1", "C=1", ""]],
     # three to five components of different sizes (component order must be kept)
     [["CCCC", "CCCCCC", "C", "CC(=O)[O-]"], ".", ["CCCC", "CCC", "C", "CC(=O)[O-]"], ".", ["C", "CC", "[Ca+2]"], ["", ".C", ".N.O"]],
 ]
